@@ -10,6 +10,11 @@ still holds the deleted value, is installed underneath: the key is back.  The re
 on disk (SSTable), so it also survives crash() + recover_from_crash(), although the delete's WAL
 sync had completed: "no overwritten or deleted value is resurrected" fails.
 
+Same root cause as the C14 finding "lsm-concurrent-compaction"; the repair is
+findings/C14-2-lsm-concurrent-compaction.patch (compactions run one at a time).  With that patch applied
+this script exits 0 and the C15 check no longer reports `LSMTree/resurrected/live-state-already-wrong` /
+`LSMTree/resurrected/returned-before-second-compaction-completed`.
+
 Run:  /venv/bin/python C15-concurrent-compactions-resurrect-deleted-key.py    (exit 1 = defect shows)
       VERIF_REPO=<scratch tree> /venv/bin/python ...
 """
